@@ -555,6 +555,20 @@ class Problem:
                     env, cur = beste, bestv
                 if not found and cur is not None and ((cur < bound) if want_low else (cur > bound)):
                     found = True
+                if not found and cur is not None:
+                    # local random search from the best point so far (the activating region may be a thin set, e.g. a near-cancellation)
+                    t_end = time.time() + 6.0
+                    step = 2.0
+                    while time.time() < t_end and not found:
+                        e2 = dict(env)
+                        for nm in rnd.sample(names, min(len(names), 1 + rnd.randrange(3))):
+                            e2[nm] = env[nm] + rnd.gauss(0.0, step)
+                        v = val(e2)
+                        if v is not None and ((v < cur) if want_low else (v > cur)):
+                            env, cur = e2, v
+                            found = (cur < bound) if want_low else (cur > bound)
+                        else:
+                            step = max(0.01, step * 0.97)
                 if found:
                     out.append(env)
         return out
